@@ -583,6 +583,19 @@ class Sim:
             if kind != "add" and kind != "remove" and rng.random() < 0.1:
                 k = 0
             args = self._pick_args(rng, w, t, k)
+            if kind == "remove" and rng.random() < 0.6:
+                # aim at the tree below t: a child collection followed by one of its own descendants,
+                # the same child twice, ...
+                fl = [x for x in _flatten(w[t])] if _is_coll(w[t]) else []
+                args = []
+                for _ in range(k):
+                    prev = w[args[-1]] if args else None
+                    if prev is not None and _is_coll(prev) and prev._children and rng.random() < 0.6:
+                        args.append(w.index(rng.choice(_flatten(prev))))
+                    elif fl and rng.random() < 0.85:
+                        args.append(w.index(rng.choice(fl)))
+                    else:
+                        args.append(rng.randrange(n))
             op = {"op": kind, "t": t, "args": args}
             if kind == "add":
                 op["override"] = rng.random() < cfg["p_override"]
